@@ -84,6 +84,20 @@ pub fn corpus() -> Vec<(&'static str, IncCfg, Vec<Op>)> {
         flow(&c, 3, 1, 1_000_000, Some(15)),
         Op::NewEpoch, Op::Snapshot, Op::Claim { sender: 1 }, Op::Claim { sender: 2 },
     ]));
+    // first claim over TWO flows: the address has weight from before the second flow starts and changes it after that start
+    // (per-flow weight tracking must restart from the address's earliest weight for every flow)
+    let c = cfg_base(3, 0);
+    v.push(("first_claim_two_flows_weight_change_after_second_start", c.clone(), vec![
+        flow(&c, 3, 1, 2_000_000, Some(30)),
+        open_pos(&c, 1, 1000, 86_400), open_pos(&c, 2, 3000, 86_400),
+        Op::NewEpoch, Op::Snapshot, Op::NewEpoch, Op::Snapshot,
+        flow(&c, 4, 1, 1_500_000, Some(31)),                       // second flow of the SAME reward asset, starts now (epoch 3)
+        flow(&c, 4, 0, 900_000, Some(29)),                         // third flow, other asset
+        Op::NewEpoch, Op::Snapshot, Op::NewEpoch, Op::Snapshot,
+        expand_pos(&c, 1, 5000, 86_400),                           // weight change after the later flows started
+        Op::NewEpoch, Op::Snapshot, Op::NewEpoch, Op::Snapshot,
+        Op::Claim { sender: 1 }, Op::Claim { sender: 2 }, Op::Claim { sender: 1 },
+    ]));
     // a position opened and claimed in the same epoch keeps its weight (the code as found lost it)
     let c = cfg_base(10, 1);
     v.push(("open_then_claim_same_epoch", c.clone(), vec![
